@@ -61,6 +61,13 @@ Theorem C11_non_script_silent : forall fixed roots funcs e, check_untrusted fixe
 Proof. exact non_script_silent. Qed.
 Print Assumptions C11_non_script_silent.
 
+(* Check() leaves the checker in its initial state: no leak into the next expression *)
+Theorem C11_state_clean_after_check : forall roots funcs e,
+  let s := do_end (run true roots (events funcs e) st_init) in
+  s_chain s = chain_reset /\ s_safe s = 0.
+Proof. exact state_clean_after_check. Qed.
+Print Assumptions C11_state_clean_after_check.
+
 (* the automaton as it was before the repairs violates the property (findings) *)
 Theorem C11_untrusted_exact_old_refuted :
   exists e, parser_normal e /\ ~ reports_equiv (reported false tree (events funcs e)) (spec_paths tree (known funcs) e).
